@@ -228,7 +228,7 @@ def doExpr (l : Line) : Option String := do
     let val := toList n (run env i xv)
     let inp := toList n (runIn env i xv)
     let d := toList n (den env e xv)
-    some s!"ok tree={showImpl i} dom={showSp i.dom} ran={showSp i.ran} lin={b01 i.lin} fn={b01 i.isFn} ty={showTy ty} linof={b01 (linOf e)} tt={b01 (viaT == some (showImpl i) && i.linBy Gen.AlgebraDispatch.flagOf == i.lin && toList n (runBy Gen.AlgebraDispatch.callOf env i xv) == val)} val={showCList val} inp={showCList inp} den={showCList d}"
+    some s!"ok tree={showImpl i} dom={showSp i.dom} ran={showSp i.ran} lin={b01 i.lin} fn={b01 i.isFn} ty={showTy ty} linof={b01 (linOf e)} nf={b01 i.merged} tt={b01 (viaT == some (showImpl i) && i.linBy Gen.AlgebraDispatch.flagOf == i.lin && toList n (runBy Gen.AlgebraDispatch.callOf env i xv) == val)} val={showCList val} inp={showCList inp} den={showCList d}"
 
 def handle (l : Line) : Option String :=
   match l.op with
